@@ -558,6 +558,25 @@ impl Pos {
     }
 
     /// Validity in the sense of property C01's quantifier.
+    /// En-passant state can only stand "directly after a double pawn push": with the pushed pawn
+    /// put back on its starting square and the turn given back, the side that is to move now must
+    /// not be in check (it was the other side's turn then). `validate` checks the squares only;
+    /// this is the part about the position before.
+    pub fn ep_predecessor_ok(&self) -> bool {
+        match self.ep {
+            None => true,
+            Some(t) => {
+                let mover = self.stm.other();
+                let (pawn_sq, origin) = if self.stm == Col::W { (t - 8, t + 8) } else { (t + 8, t - 8) };
+                let mut q = self.clone();
+                q.board[pawn_sq as usize] = None;
+                q.board[origin as usize] = Some((mover, Kind::P));
+                q.ep = None;
+                q.stm = mover;
+                !q.in_check(self.stm)
+            }
+        }
+    }
     pub fn validate(&self) -> Result<(), String> {
         for c in [Col::W, Col::B] {
             if self.count(c, Kind::K) != 1 {
